@@ -99,6 +99,9 @@ class Symx:
         self._bind_args(fn, frame, st, args)
         out = []
         for st2, ret in self._explore(fn, frame, st, 0, 0, ()):
+            if ret[0] == 'ref' and ret[1][0] == 'local':
+                # a reference to a local of the finished body (promoted constants): keep the value
+                ret = ('valref', self._read(st2, ret[1], ret[2]))
             stores = {k: v for k, v in st2.ov.items() if k[0][0] != 'local'}
             out.append(PathResult(st2.lits, st2.events, ret, stores, None, st2.cut))
         return out
@@ -645,10 +648,20 @@ class Symx:
                 self._write(st2, dest_root, dest_path, ret)
                 outs.append(st2)
             return outs
-        # not inlined: record an event; pure callees give a deterministic application
-        st.events.append((name, tuple(args), fn.nq, b.i))
+        # not inlined: record an event; pure callees give a deterministic application.
+        # References to plain locals holding a known aggregate/constant are recorded by value
+        # (`&InstructionResult::SelfDestruct`), so that comparisons against constants stay readable.
+        shown = []
+        for a in args:
+            if a[0] == 'ref' and a[1][0] == 'local':
+                v = self._read(st, a[1], a[2])
+                if v[0] in ('k', 'agg') and (v[0] == 'k' or not v[4] or all(x[0] == 'k' for x in v[4])):
+                    shown.append(('valref', v))
+                    continue
+            shown.append(a)
+        st.events.append((name, tuple(shown), fn.nq, b.i))
         if name in self.pure or any(n in self.pure for n in names):
-            return done(('call', name, tuple(args), None))
+            return done(('call', name, tuple(shown), None))
         for a in args:
             if a[0] == 'ref' and (a[1][0] != 'local' or True):
                 # conservatively assume a callee may write through any reference it receives,
@@ -656,7 +669,7 @@ class Symx:
                 pass
         self._havoc_mut_args(fn, st, t, args)
         self.uid += 1
-        return done(('call', name, tuple(args), self.uid))
+        return done(('call', name, tuple(shown), self.uid))
 
     def _havoc_mut_args(self, fn, st, t, args):
         for op, a in zip(t.args, args):
@@ -712,6 +725,8 @@ def render(sv, depth=0):
         return '%s(%s)' % (sv[1].split('::')[-1], ', '.join(render(a, depth + 1) for a in sv[2]))
     if k == 'fn':
         return 'fn:' + sv[1].split('::')[-1]
+    if k == 'valref':
+        return '&' + render(sv[1], depth + 1)
     if k == 'with':
         return '%s with {%s}' % (render(sv[1], depth + 1), ', '.join('%s: %s' % (''.join(p), render(v, depth + 1)) for p, v in sv[2]))
     return str(sv)
